@@ -14,45 +14,51 @@ section json
 variable {c : Chain} {fb : Fallback}
 
 mutual
-theorem jsonEncode_eq_canon (h : DispatchSpec c fb) : ∀ t : Tree, KeysOk t → jsonEncode c fb t = .ok (canon t)
-  | .dict kvs, hk => by
-      have := jsonEncodeKvs_eq_canon h kvs (by simpa [KeysOk] using hk)
+theorem jsonEncode_eq_canon (h : DispatchSpec c fb) :
+    ∀ t : Tree, KeysOk t → WellShaped t → jsonEncode c fb t = .ok (canon t)
+  | .dict kvs, hk, hw => by
+      have := jsonEncodeKvs_eq_canon h kvs (by simpa [KeysOk] using hk) (by simpa [WellShaped] using hw)
       simp [jsonEncode, canon, this]; rfl
-  | .list xs, hk => by
-      have := jsonEncodeList_eq_canon h xs (by simpa [KeysOk] using hk)
+  | .list xs, hk, hw => by
+      have := jsonEncodeList_eq_canon h xs (by simpa [KeysOk] using hk) (by simpa [WellShaped] using hw)
       simp [jsonEncode, canon, this]; rfl
-  | .tuple xs, hk => by
-      have := jsonEncodeList_eq_canon h xs (by simpa [KeysOk] using hk)
+  | .tuple xs, hk, hw => by
+      have := jsonEncodeList_eq_canon h xs (by simpa [KeysOk] using hk) (by simpa [WellShaped] using hw)
       simp [jsonEncode, canon, this]; rfl
-  | .int _, _ => by simp [jsonEncode, canon]
-  | .float _, _ => by simp [jsonEncode, canon]
-  | .str _, _ => by simp [jsonEncode, canon]
-  | .none, _ => by simp [jsonEncode, canon]
-  | .bool _, _ => by simp [jsonEncode, canon]
-  | .npStr _, _ => by simp [jsonEncode, canon]
-  | .ndarray _ shape flat, hk => by
-      have := jsonEncodeList_eq_canon h flat (by simpa [KeysOk] using hk)
-      simp [jsonEncode, canon, this, h.ndarray]; rfl
-  | .structured names nrows cells, hk => by
-      have := jsonEncodeList_eq_canon h cells (by simpa [KeysOk] using hk)
-      simp [jsonEncode, canon, this, h.ndarray]; rfl
-  | .npInt _, _ => by simp [jsonEncode, canon, h.npInt, applyScalar]
-  | .npFloat _ _ _, _ => by simp [jsonEncode, canon, h.npFloat, applyScalar]
-  | .npBool _, _ => by simp [jsonEncode, canon, h.npBool, applyScalar]
-  | .opaque _, _ => by simp [jsonEncode, canon, h.opaq, applyScalar]
+  | .int _, _, _ => by simp [jsonEncode, canon]
+  | .float _, _, _ => by simp [jsonEncode, canon]
+  | .str _, _, _ => by simp [jsonEncode, canon]
+  | .none, _, _ => by simp [jsonEncode, canon]
+  | .bool _, _, _ => by simp [jsonEncode, canon]
+  | .npStr _, _, _ => by simp [jsonEncode, canon]
+  | .ndarray _ shape flat, hk, hw => by
+      have hw' : flat.length = prod shape ∧ WellShapedList flat := by simpa [WellShaped] using hw
+      have := jsonEncodeList_eq_canon h flat (by simpa [KeysOk] using hk) hw'.2
+      simp [jsonEncode, canon, this, h.ndarray, hw'.1]; rfl
+  | .structured names nrows cells, hk, hw => by
+      have hw' : cells.length = nrows * names.length ∧ WellShapedList cells := by simpa [WellShaped] using hw
+      have := jsonEncodeList_eq_canon h cells (by simpa [KeysOk] using hk) hw'.2
+      simp [jsonEncode, canon, this, h.ndarray, hw'.1]; rfl
+  | .npInt _, _, _ => by simp [jsonEncode, canon, h.npInt, applyScalar]
+  | .npFloat _ _ _, _, _ => by simp [jsonEncode, canon, h.npFloat, applyScalar]
+  | .npBool _, _, _ => by simp [jsonEncode, canon, h.npBool, applyScalar]
+  | .opaque _, _, _ => by simp [jsonEncode, canon, h.opaq, applyScalar]
 theorem jsonEncodeList_eq_canon (h : DispatchSpec c fb) :
-    ∀ xs : List Tree, KeysOkList xs → jsonEncodeList c fb xs = .ok (canonList xs)
-  | [], _ => by simp [jsonEncodeList, canonList]
-  | x :: xs, hk => by
+    ∀ xs : List Tree, KeysOkList xs → WellShapedList xs → jsonEncodeList c fb xs = .ok (canonList xs)
+  | [], _, _ => by simp [jsonEncodeList, canonList]
+  | x :: xs, hk, hw => by
       have hk' : KeysOk x ∧ KeysOkList xs := by simpa [KeysOkList] using hk
-      simp [jsonEncodeList, canonList, jsonEncode_eq_canon h x hk'.1, jsonEncodeList_eq_canon h xs hk'.2]; rfl
+      have hw' : WellShaped x ∧ WellShapedList xs := by simpa [WellShapedList] using hw
+      simp [jsonEncodeList, canonList, jsonEncode_eq_canon h x hk'.1 hw'.1,
+        jsonEncodeList_eq_canon h xs hk'.2 hw'.2]; rfl
 theorem jsonEncodeKvs_eq_canon (h : DispatchSpec c fb) :
-    ∀ kvs : List (Key × Tree), KeysOkKvs kvs → jsonEncodeKvs c fb kvs = .ok (canonKvs kvs)
-  | [], _ => by simp [jsonEncodeKvs, canonKvs]
-  | (k, v) :: rest, hk => by
+    ∀ kvs : List (Key × Tree), KeysOkKvs kvs → WellShapedKvs kvs → jsonEncodeKvs c fb kvs = .ok (canonKvs kvs)
+  | [], _, _ => by simp [jsonEncodeKvs, canonKvs]
+  | (k, v) :: rest, hk, hw => by
       have hk' : k ≠ .bad ∧ KeysOk v ∧ KeysOkKvs rest := by simpa [KeysOkKvs] using hk
-      have hv := jsonEncode_eq_canon h v hk'.2.1
-      have hr := jsonEncodeKvs_eq_canon h rest hk'.2.2
+      have hw' : WellShaped v ∧ WellShapedKvs rest := by simpa [WellShapedKvs] using hw
+      have hv := jsonEncode_eq_canon h v hk'.2.1 hw'.1
+      have hr := jsonEncodeKvs_eq_canon h rest hk'.2.2 hw'.2
       cases k <;> simp_all [jsonEncodeKvs, canonKvs, jsonKey] <;> rfl
 end
 
@@ -233,5 +239,261 @@ theorem upsert_mem_keys (k : Key) (v : Tree) : ∀ kvs : List (Key × Tree), (k,
       by_cases hk : k' = k
       · simp [upsert, hk]
       · simp [upsert, hk, upsert_mem_keys k v rest]
+
+/-! ### representation invariants, json.load -/
+
+mutual
+theorem wellShaped_of_isJson : ∀ t : Tree, IsJson t → WellShaped t
+  | .dict kvs, h => by simpa [WellShaped] using wellShapedKvs_of_isJson kvs (by simpa [IsJson] using h)
+  | .list xs, h => by simpa [WellShaped] using wellShapedList_of_isJson xs (by simpa [IsJson] using h)
+  | .int _, _ | .float _, _ | .str _, _ | .none, _ | .bool _, _ => by simp [WellShaped]
+  | .tuple _, h | .ndarray _ _ _, h | .structured _ _ _, h | .npInt _, h | .npFloat _ _ _, h
+  | .npBool _, h | .npStr _, h | .opaque _, h => by simp [IsJson] at h
+theorem wellShapedList_of_isJson : ∀ xs : List Tree, IsJsonList xs → WellShapedList xs
+  | [], _ => by simp [WellShapedList]
+  | x :: xs, h => by
+      have h' : IsJson x ∧ IsJsonList xs := by simpa [IsJsonList] using h
+      exact ⟨wellShaped_of_isJson x h'.1, wellShapedList_of_isJson xs h'.2⟩
+theorem wellShapedKvs_of_isJson : ∀ kvs : List (Key × Tree), IsJsonKvs kvs → WellShapedKvs kvs
+  | [], _ => by simp [WellShapedKvs]
+  | (k, v) :: rest, h => by
+      have h' : (∃ s, k = .str s) ∧ IsJson v ∧ IsJsonKvs rest := by simpa [IsJsonKvs] using h
+      exact ⟨wellShaped_of_isJson v h'.2.1, wellShapedKvs_of_isJson rest h'.2.2⟩
+end
+
+theorem keysDistinctList_iff : ∀ xs : List Tree, KeysDistinctList xs ↔ ∀ x ∈ xs, KeysDistinct x
+  | [] => by simp [KeysDistinctList]
+  | x :: xs => by simp [KeysDistinctList, keysDistinctList_iff xs]
+
+theorem keysDistinct_nest : ∀ (shape : List Nat) (xs : List Tree), (∀ x ∈ xs, KeysDistinct x) →
+    KeysDistinct (nest shape xs)
+  | [], xs, h => by
+      cases xs with
+      | nil => simp [nest, KeysDistinct]
+      | cons x xs => simpa [nest] using h x (by simp)
+  | n :: rest, xs, h => by
+      simp only [nest, KeysDistinct]
+      rw [keysDistinctList_iff]
+      intro y hy
+      simp only [List.mem_map] at hy
+      obtain ⟨c, hc, rfl⟩ := hy
+      exact keysDistinct_nest rest c (fun x hx => h x (chunksN_mem_sub _ _ _ c hc x hx))
+
+theorem keysOf_canonKvs : ∀ kvs : List (Key × Tree), KeysOkKvs kvs →
+    (keysOf (canonKvs kvs)).map renderKey = (keysOf kvs).map renderKey
+  | [], _ => by simp [canonKvs, keysOf]
+  | (k, v) :: rest, hk => by
+      have hk' : k ≠ .bad ∧ KeysOk v ∧ KeysOkKvs rest := by simpa [KeysOkKvs] using hk
+      have := keysOf_canonKvs rest hk'.2.2
+      cases k <;> simp_all [canonKvs, keysOf, renderKey, jsonKey]
+
+mutual
+theorem canon_keysDistinct : ∀ t : Tree, KeysOk t → KeysDistinct t → KeysDistinct (canon t)
+  | .dict kvs, hk, hd => by
+      have hk' : KeysOkKvs kvs := by simpa [KeysOk] using hk
+      have hd' : ((keysOf kvs).map renderKey).Nodup ∧ KeysDistinctKvs kvs := by simpa [KeysDistinct] using hd
+      simp only [canon, KeysDistinct]
+      exact ⟨by rw [keysOf_canonKvs kvs hk']; exact hd'.1, canonKvs_keysDistinct kvs hk' hd'.2⟩
+  | .list xs, hk, hd => by
+      simpa [canon, KeysDistinct] using canonList_keysDistinct xs (by simpa [KeysOk] using hk) (by simpa [KeysDistinct] using hd)
+  | .tuple xs, hk, hd => by
+      simpa [canon, KeysDistinct] using canonList_keysDistinct xs (by simpa [KeysOk] using hk) (by simpa [KeysDistinct] using hd)
+  | .int _, _, _ | .float _, _, _ | .str _, _, _ | .none, _, _ | .bool _, _, _ | .npStr _, _, _ | .npInt _, _, _
+  | .npFloat _ _ _, _, _ | .npBool _, _, _ | .opaque _, _, _ => by simp [canon, KeysDistinct]
+  | .ndarray _ shape flat, hk, hd => by
+      simp only [canon]
+      exact keysDistinct_nest _ _ ((keysDistinctList_iff _).1
+        (canonList_keysDistinct flat (by simpa [KeysOk] using hk) (by simpa [KeysDistinct] using hd)))
+  | .structured _ _ cells, hk, hd => by
+      simp only [canon]
+      exact keysDistinct_nest _ _ ((keysDistinctList_iff _).1
+        (canonList_keysDistinct cells (by simpa [KeysOk] using hk) (by simpa [KeysDistinct] using hd)))
+theorem canonList_keysDistinct : ∀ xs : List Tree, KeysOkList xs → KeysDistinctList xs → KeysDistinctList (canonList xs)
+  | [], _, _ => by simp [canonList, KeysDistinctList]
+  | x :: xs, hk, hd => by
+      have hk' : KeysOk x ∧ KeysOkList xs := by simpa [KeysOkList] using hk
+      have hd' : KeysDistinct x ∧ KeysDistinctList xs := by simpa [KeysDistinctList] using hd
+      exact ⟨canon_keysDistinct x hk'.1 hd'.1, canonList_keysDistinct xs hk'.2 hd'.2⟩
+theorem canonKvs_keysDistinct : ∀ kvs : List (Key × Tree), KeysOkKvs kvs → KeysDistinctKvs kvs →
+    KeysDistinctKvs (canonKvs kvs)
+  | [], _, _ => by simp [canonKvs, KeysDistinctKvs]
+  | (k, v) :: rest, hk, hd => by
+      have hk' : k ≠ .bad ∧ KeysOk v ∧ KeysOkKvs rest := by simpa [KeysOkKvs] using hk
+      have hd' : KeysDistinct v ∧ KeysDistinctKvs rest := by simpa [KeysDistinctKvs] using hd
+      exact ⟨canon_keysDistinct v hk'.2.1 hd'.1, canonKvs_keysDistinct rest hk'.2.2 hd'.2⟩
+end
+
+theorem keysOf_append : ∀ a b : List (Key × Tree), keysOf (a ++ b) = keysOf a ++ keysOf b
+  | [], b => by simp [keysOf]
+  | (k, v) :: a, b => by simp [keysOf, keysOf_append a b]
+
+theorem upsert_fresh (k : Key) (v : Tree) : ∀ acc : List (Key × Tree), k ∉ keysOf acc → upsert k v acc = acc ++ [(k, v)]
+  | [], _ => by simp [upsert]
+  | (k', v') :: acc, h => by
+      have h' : k ≠ k' ∧ k ∉ keysOf acc := by simpa [keysOf] using h
+      simp [upsert, Ne.symm h'.1, upsert_fresh k v acc h'.2]
+
+theorem foldl_upsert_nodup : ∀ (kvs acc : List (Key × Tree)), (keysOf acc ++ keysOf kvs).Nodup →
+    kvs.foldl (fun d e => upsert e.1 e.2 d) acc = acc ++ kvs
+  | [], acc, _ => by simp
+  | (k, v) :: kvs, acc, h => by
+      have hk : k ∉ keysOf acc := by
+        intro hm
+        have := (List.nodup_append.1 h).2.2 k hm k (by simp [keysOf])
+        exact this rfl
+      simp only [List.foldl_cons]
+      rw [upsert_fresh k v acc hk]
+      have h2 : (keysOf (acc ++ [(k, v)]) ++ keysOf kvs).Nodup := by
+        simpa [keysOf_append, keysOf, List.append_assoc] using h
+      rw [foldl_upsert_nodup kvs _ h2]
+      simp
+
+theorem nodup_of_map_nodup {α β : Type} (f : α → β) : ∀ l : List α, (l.map f).Nodup → l.Nodup
+  | [], _ => by simp
+  | a :: l, h => by
+      have h' : f a ∉ l.map f ∧ (l.map f).Nodup := by simpa using h
+      simp only [List.nodup_cons]
+      exact ⟨fun hm => h'.1 (List.mem_map.2 ⟨a, hm, rfl⟩), nodup_of_map_nodup f l h'.2⟩
+
+theorem dedupKvs_nodup (kvs : List (Key × Tree)) (h : (keysOf kvs).Nodup) : dedupKvs kvs = kvs := by
+  simpa [dedupKvs] using foldl_upsert_nodup kvs [] (by simpa [keysOf] using h)
+
+theorem keysOf_jsonLoadKvs : ∀ kvs : List (Key × Tree), keysOf (jsonLoadKvs kvs) = keysOf kvs
+  | [] => by simp [jsonLoadKvs, keysOf]
+  | (k, v) :: rest => by simp [jsonLoadKvs, keysOf, keysOf_jsonLoadKvs rest]
+
+mutual
+theorem jsonLoad_id : ∀ j : Tree, KeysDistinct j → jsonLoad j = j
+  | .dict kvs, hd => by
+      have hd' : ((keysOf kvs).map renderKey).Nodup ∧ KeysDistinctKvs kvs := by simpa [KeysDistinct] using hd
+      have hl := jsonLoadKvs_id kvs hd'.2
+      simp only [jsonLoad, hl]
+      rw [dedupKvs_nodup kvs (nodup_of_map_nodup _ _ hd'.1)]
+  | .list xs, hd => by simp [jsonLoad, jsonLoadList_id xs (by simpa [KeysDistinct] using hd)]
+  | .tuple _, _ | .int _, _ | .float _, _ | .str _, _ | .none, _ | .bool _, _ | .ndarray _ _ _, _
+  | .structured _ _ _, _ | .npInt _, _ | .npFloat _ _ _, _ | .npBool _, _ | .npStr _, _ | .opaque _, _ => by
+      simp [jsonLoad]
+theorem jsonLoadList_id : ∀ xs : List Tree, KeysDistinctList xs → jsonLoadList xs = xs
+  | [], _ => by simp [jsonLoadList]
+  | x :: xs, hd => by
+      have hd' : KeysDistinct x ∧ KeysDistinctList xs := by simpa [KeysDistinctList] using hd
+      simp [jsonLoadList, jsonLoad_id x hd'.1, jsonLoadList_id xs hd'.2]
+theorem jsonLoadKvs_id : ∀ kvs : List (Key × Tree), KeysDistinctKvs kvs → jsonLoadKvs kvs = kvs
+  | [], _ => by simp [jsonLoadKvs]
+  | (k, v) :: rest, hd => by
+      have hd' : KeysDistinct v ∧ KeysDistinctKvs rest := by simpa [KeysDistinctKvs] using hd
+      simp [jsonLoadKvs, jsonLoad_id v hd'.1, jsonLoadKvs_id rest hd'.2]
+end
+
+theorem jsonRoundTrip_eq_canon {c : Chain} {fb : Fallback} (h : DispatchSpec c fb) (t : Tree)
+    (hk : KeysOk t) (hd : KeysDistinct t) (hw : WellShaped t) : jsonRoundTrip c fb t = .ok (canon t) := by
+  simp [jsonRoundTrip, jsonEncode_eq_canon h t hk hw, jsonLoad_id _ (canon_keysDistinct t hk hd)]
+
+/-! ### 1-d arrays -/
+
+theorem chunksN_one : ∀ (n : Nat) (xs : List Tree), xs.length = n → (chunksN n 1 xs).map (nest []) = xs
+  | 0, xs, h => by
+      have : xs = [] := List.eq_nil_of_length_eq_zero h
+      subst this
+      rfl
+  | n + 1, x :: xs, h => by
+      have hl : xs.length = n := by simpa using h
+      have ih := chunksN_one n xs hl
+      show nest [] ((x :: xs).take 1) :: (chunksN n 1 ((x :: xs).drop 1)).map (nest []) = x :: xs
+      have h1 : (x :: xs).take 1 = [x] := by simp
+      have h2 : (x :: xs).drop 1 = xs := by simp
+      rw [h1, h2, ih]
+      rfl
+
+theorem nest_1d (xs : List Tree) : nest [xs.length] xs = .list xs := by
+  show Tree.list ((chunksN xs.length (prod []) xs).map (nest [])) = _
+  rw [show prod [] = 1 from rfl, chunksN_one xs.length xs rfl]
+
+/-! ### keyword-argument dictionaries -/
+
+theorem keysOf_upsert (k : Key) (v : Tree) : ∀ kvs : List (Key × Tree),
+    keysOf (upsert k v kvs) = if k ∈ keysOf kvs then keysOf kvs else keysOf kvs ++ [k]
+  | [] => by simp [upsert, keysOf]
+  | (k', v') :: rest => by
+      by_cases hk : k' = k
+      · simp [upsert, hk, keysOf]
+      · have hk2 : ¬ k = k' := fun h => hk h.symm
+        by_cases hm : k ∈ keysOf rest
+        · simp [upsert, hk, keysOf, keysOf_upsert k v rest, hm]
+        · simp [upsert, hk, hk2, keysOf, keysOf_upsert k v rest, hm]
+
+def StrKeys (kvs : List (Key × Tree)) : Prop := ∀ k ∈ keysOf kvs, ∃ s, k = .str s
+
+theorem strKeys_nodup_upsert (k : String) (v : Tree) (kvs : List (Key × Tree))
+    (hs : StrKeys kvs) (hn : (keysOf kvs).Nodup) :
+    StrKeys (upsert (.str k) v kvs) ∧ (keysOf (upsert (.str k) v kvs)).Nodup := by
+  rw [keysOf_upsert]
+  unfold StrKeys
+  rw [keysOf_upsert]
+  by_cases hm : Key.str k ∈ keysOf kvs
+  · simp only [hm, if_true]; exact ⟨hs, hn⟩
+  · simp only [hm, if_false]
+    refine ⟨?_, ?_⟩
+    · intro k' hk'
+      simp only [List.mem_append, List.mem_singleton] at hk'
+      rcases hk' with h | h
+      · exact hs k' h
+      · exact ⟨k, h⟩
+    · rw [List.nodup_append]
+      exact ⟨hn, by simp, by intro a ha b hb; simp at hb; subst hb; intro h; subst h; exact hm ha⟩
+
+theorem strKeys_nodup_extras : ∀ (extra : List (String × Tree)) (kvs : List (Key × Tree)),
+    StrKeys kvs → (keysOf kvs).Nodup →
+    StrKeys (extra.foldl (fun d e => upsert (.str e.1) e.2 d) kvs) ∧
+      (keysOf (extra.foldl (fun d e => upsert (.str e.1) e.2 d) kvs)).Nodup
+  | [], kvs, hs, hn => ⟨by simpa using hs, by simpa using hn⟩
+  | e :: extra, kvs, hs, hn => by
+      simp only [List.foldl_cons]
+      obtain ⟨h1, h2⟩ := strKeys_nodup_upsert e.1 e.2 kvs hs hn
+      exact strKeys_nodup_extras extra _ h1 h2
+
+theorem renderKey_nodup_of_str : ∀ ks : List Key, (∀ k ∈ ks, ∃ s, k = Key.str s) → ks.Nodup → (ks.map renderKey).Nodup
+  | [], _, _ => by simp
+  | k :: ks, hs, hn => by
+      have hn' : k ∉ ks ∧ ks.Nodup := by simpa using hn
+      simp only [List.map_cons, List.nodup_cons]
+      refine ⟨?_, renderKey_nodup_of_str ks (fun k' hk' => hs k' (by simp [hk'])) hn'.2⟩
+      intro hm
+      simp only [List.mem_map] at hm
+      obtain ⟨k', hk', he⟩ := hm
+      obtain ⟨s, rfl⟩ := hs k (by simp)
+      obtain ⟨s', rfl⟩ := hs k' (by simp [hk'])
+      simp [renderKey, jsonKey] at he
+      subst he
+      exact hn'.1 hk'
+
+theorem keysDistinctKvs_upsert (k : Key) (v : Tree) (hv : KeysDistinct v) : ∀ kvs : List (Key × Tree),
+    KeysDistinctKvs kvs → KeysDistinctKvs (upsert k v kvs)
+  | [], _ => by simp [upsert, KeysDistinctKvs, hv]
+  | (k', v') :: rest, h => by
+      have h' : KeysDistinct v' ∧ KeysDistinctKvs rest := by simpa [KeysDistinctKvs] using h
+      by_cases hk : k' = k
+      · simp [upsert, hk, KeysDistinctKvs, hv, h'.2]
+      · simp [upsert, hk, KeysDistinctKvs, h'.1, keysDistinctKvs_upsert k v hv rest h'.2]
+
+theorem wellShapedKvs_upsert (k : Key) (v : Tree) (hv : WellShaped v) : ∀ kvs : List (Key × Tree),
+    WellShapedKvs kvs → WellShapedKvs (upsert k v kvs)
+  | [], _ => by simp [upsert, WellShapedKvs, hv]
+  | (k', v') :: rest, h => by
+      have h' : WellShaped v' ∧ WellShapedKvs rest := by simpa [WellShapedKvs] using h
+      by_cases hk : k' = k
+      · simp [upsert, hk, WellShapedKvs, hv, h'.2]
+      · simp [upsert, hk, WellShapedKvs, h'.1, wellShapedKvs_upsert k v hv rest h'.2]
+
+theorem extras_invariants : ∀ (extra : List (String × Tree)) (kvs : List (Key × Tree)),
+    (∀ e ∈ extra, KeysDistinct e.2 ∧ WellShaped e.2) → KeysDistinctKvs kvs → WellShapedKvs kvs →
+    KeysDistinctKvs (extra.foldl (fun d e => upsert (.str e.1) e.2 d) kvs) ∧
+      WellShapedKvs (extra.foldl (fun d e => upsert (.str e.1) e.2 d) kvs)
+  | [], kvs, _, hd, hw => ⟨by simpa using hd, by simpa using hw⟩
+  | e :: extra, kvs, he, hd, hw => by
+      simp only [List.foldl_cons]
+      exact extras_invariants extra _ (fun x hx => he x (by simp [hx]))
+        (keysDistinctKvs_upsert _ _ (he e (by simp)).1 kvs hd)
+        (wellShapedKvs_upsert _ _ (he e (by simp)).2 kvs hw)
 
 end NessaiVerif.Encode
